@@ -176,8 +176,13 @@ pub fn format_date(
 
 pub fn format_highres_date(t: f64, offset: Option<i32>) -> String {
     let offset = offset.unwrap_or(0);
-    let datetime = Utc.timestamp_opt(t as i64 + offset as i64, 0).unwrap();
-    let highres_seconds = format!("{:.9}", t - t.floor())[1..].to_string();
+    let fraction = format!("{:.9}", t - t.floor());
+    // a fraction that rounds up to 1.000000000 carries into the seconds
+    let carry = if fraction.starts_with('1') { 1 } else { 0 };
+    let datetime = Utc
+        .timestamp_opt(t as i64 + carry + offset as i64, 0)
+        .unwrap();
+    let highres_seconds = fraction[1..].to_string();
     let sign = if offset < 0 { '-' } else { '+' };
     let abs_offset = offset.abs();
     let offset_str = format!(
